@@ -43,6 +43,11 @@ CutAnswers(P, q) ==
       idxs == SortUnique(SetToSeq(CutIndices(P, call.c)))
   IN  CutFrom(P, call, idxs, 1)
 
+\* first occurrences only (a tabled engine reports every answer once)
+RECURSIVE Dedup(_, _)
+Dedup(s, acc) == IF s = << >> THEN acc
+                 ELSE IF Count(Head(s), acc) > 0 THEN Dedup(Tail(s), acc) ELSE Dedup(Tail(s), Append(acc, Head(s)))
+
 JudgeCase(C) ==
   LET b == IF C.mode = "builtin" THEN Builtin(C.q) ELSE [ sup |-> TRUE, sols |-> << >> ]
       e == IF C.mode = "builtin" THEN [ ovf |-> ~b.sup, ans |-> b.sols ]
@@ -53,6 +58,9 @@ JudgeCase(C) ==
              ELSE IF C.mode = "set" \/ C.mode = "cut" THEN (IF SameSet(e.ans, C.impl.ans) THEN "" ELSE "answer-set")
              ELSE IF SameSeq(e.ans, C.impl.ans) THEN ""
              ELSE IF C.mode = "seq" THEN ListVerdict(e.ans, C.impl.ans)
+             ELSE IF C.mode = "seqtop"
+                  THEN (IF SameSeq(Dedup(e.ans, << >>), C.impl.ans) THEN ""
+                        ELSE IF SameSet(e.ans, C.impl.ans) THEN "toplevel-answer-order" ELSE "answer-set")
              ELSE IF SameBag(e.ans, C.impl.ans) THEN "answer-order"
              ELSE IF SameSet(e.ans, C.impl.ans) THEN "answer-multiplicity"
              ELSE "answer-set"
